@@ -20,16 +20,23 @@ for f in K:
     if f['status'] == 'open':
         o += "| %s | %s | %s | dependency code (noodles-bcf 0.32, pinned by Cargo.lock; no other version in the offline registry) |\n" % (f['id'], f['property'], f['what'].replace('|', '\\|'))
 R = json.load(open(os.path.join(V, 'seeded', 'RESULTS.json')))
-c = "| change | needs to manifest | caught by (first report) |\n|---|---|---|\n"
+try:
+    BEFORE = json.load(open(os.path.join(V, 'seeded', 'RESULTS_round2_before_strengthening.json')))['results']
+except OSError:
+    BEFORE = {}
+c = "| change | needs to manifest | caught by (first report) | before strengthening |\n|---|---|---|---|\n"
 for mid in sorted(R):
     m = json.load(open(os.path.join(V, 'seeded', mid, 'meta.json')))
     det = [(k, v) for k, v in R[mid].items() if isinstance(v, dict)]
     need = (m.get('needs_to_manifest') or m.get('what') or '')[:170].replace('|', '\\|').replace('\n', ' ')
     rep = "; ".join("%s: %s" % (k, ("yes - " + v['first_report'][:110].replace('|', '\\|')) if v['detected'] else "MISSED") for k, v in det)
-    c += "| %s | %s | %s |\n" % (mid, need, rep)
+    b = BEFORE.get(mid)
+    before = "-" if b is None else ("caught" if any(isinstance(v, dict) and v.get('detected') for v in b.values()) else "MISSED")
+    c += "| %s | %s | %s | %s |\n" % (mid, need, rep, before)
 n_total = len(R)
 n_det = sum(1 for r in R.values() if any(isinstance(v, dict) and v.get('detected') for v in r.values()))
-c += "\n%d of %d seeded changes are caught by the check of the property they were written against.\n" % (n_det, n_total)
+nb = sum(1 for b in BEFORE.values() if any(isinstance(v, dict) and v.get('detected') for v in b.values()))
+c += "\n%d of %d seeded changes are caught by the check of the property they were written against (quick tier, seed 1). Second round (ids -c/-d): %d of %d were caught by the machinery as it stood before those changes were known (commit 4f635dd); the rest were caught after the strengthening described below.\n" % (n_det, n_total, nb, len(BEFORE))
 for name, body in (("fix-table", t), ("open-table", o), ("seeded-table", c)):
     pat = re.compile(r"<!-- BEGIN:%s -->.*?<!-- END:%s -->" % (name, name), re.S)
     assert pat.search(s), name
